@@ -271,7 +271,13 @@ class WaitConnAck(State):
             return
 
         if self.association.is_connected():
-            if self.association.transport.test_connection():
+            is_up = self.association.transport.test_connection()
+
+            if is_up is None:
+                #: Still connecting: look again on the next tick.
+                return
+
+            if is_up:
                 self.event_initiator_rcv_conn_ack()  
             else:
                 self.event_initiator_rcv_conn_nack()
